@@ -22,6 +22,9 @@ enum Op {
     /// LIST / DELETE with a range form
     /// LIST with a range form; interrupt after the j-th listed line; typed behind `PRINT "AB";:` (cursor mid-line)
     List(Range, Option<usize>, bool),
+    /// LIST with a range form; right after the first listed line the host loads a file by itself
+    /// (`set_listing` while the runtime is in the middle of a listing)
+    ListLoad(Range),
     Delete(Range),
     Tab(u32),
     Snap,
@@ -34,6 +37,9 @@ enum Op {
     /// a LIST / DELETE statement stored in a program line and executed by RUN (interrupt after the j-th listed line, CONT)
     ProgList(Range, Option<usize>),
 }
+
+/// what the host loads by itself in the middle of a listing
+const HOST_FILE: &[(u32, &str)] = &[(2, "PRINT 2"), (11, "REM"), (65529, "END")];
 
 #[derive(Clone, Debug)]
 enum Range {
@@ -296,6 +302,48 @@ impl Case for C15Case {
                         }
                     }
                 }
+                Op::ListLoad(r) => {
+                    let mut io = LineIo::budget(5000);
+                    io.max_slices = 400;
+                    io.host_load_after_list = Some((0, "H".into()));
+                    w.disk.insert("H".into(), HOST_FILE.iter().map(|(n, t)| format!("{} {}", n, t)).collect());
+                    let o = w.line(&format!("LIST{}", r.text()), &io);
+                    let evs = &w.events[o.ev_start..o.ev_end];
+                    let loaded_at = evs.iter().position(|e| matches!(e, Ev::Load(_)));
+                    let listed: Vec<String> = evs
+                        .iter()
+                        .filter_map(|e| if let Ev::List(s, _) = e { Some(s.clone()) } else { None })
+                        .collect();
+                    if let Some((a, b)) = r.bounds() {
+                        let expect: Vec<String> = model.range(a..=b).map(|(k, t)| format!("{} {}", k, t)).collect();
+                        match loaded_at {
+                            Some(at) => {
+                                // the load replaces the program and ends the listing: exactly the first line was
+                                // listed, and no line of the new program is listed by a LIST nobody typed
+                                let after = evs[at..].iter().filter(|e| matches!(e, Ev::List(..))).count();
+                                if listed.len() != 1 || listed.first() != expect.first() || after != 0 {
+                                    fail = Some(Violation {
+                                        key: "C15:list-continues-after-host-load".into(),
+                                        detail: format!("op {}: LIST{} with a host load after its first line printed {:?} ({} after the load); range held {:?}", opi, r.text(), listed, after, expect),
+                                    });
+                                }
+                                model.clear();
+                                for (n, t) in HOST_FILE {
+                                    model.insert(*n, t.to_string());
+                                }
+                                w.stats.bump("c15.host_load_mid_list");
+                            }
+                            None => {
+                                if listed != expect {
+                                    fail = Some(Violation {
+                                        key: "C15:list-range".into(),
+                                        detail: format!("op {}: LIST{} printed {:?}, expected {:?}", opi, r.text(), listed, expect),
+                                    });
+                                }
+                            }
+                        }
+                    }
+                }
                 Op::Tab(n) => {
                     let got = w.tab(*n as usize);
                     let expect = if *n <= 65529 {
@@ -494,6 +542,7 @@ impl Case for C15Case {
                 Op::Bare(n) => Json::Str(format!("type {:?}", n.to_string())),
                 Op::List(r, None, m) => Json::Str(format!("type {:?}", format!("{}LIST{}", if *m { "PRINT \"AB\";:" } else { "" }, r.text()))),
                 Op::List(r, Some(j), m) => Json::Str(format!("type {:?}, Ctrl-C after List event {}", format!("{}LIST{}", if *m { "PRINT \"AB\";:" } else { "" }, r.text()), j)),
+                Op::ListLoad(r) => Json::Str(format!("type {:?}; after the first List event the host loads {:?} with set_listing", format!("LIST{}", r.text()), HOST_FILE)),
                 Op::Delete(r) => Json::Str(format!("type {:?}", format!("DELETE{}", r.text()))),
                 Op::Tab(n) => Json::Str(format!("TAB completion lookup of {}", n)),
                 Op::Snap => Json::Str("take and hold a get_listing() snapshot".into()),
@@ -517,6 +566,7 @@ fn op_name(op: &Op) -> &'static str {
         Op::Put(..) => "numbered-line",
         Op::Bare(_) => "bare-number",
         Op::List(..) => "LIST",
+        Op::ListLoad(_) => "LIST+host-load",
         Op::Delete(_) => "DELETE",
         Op::Tab(_) => "TAB",
         Op::Snap => "snapshot",
@@ -546,7 +596,13 @@ impl Property for C15 {
                 47..=66 => {
                     let r = range(rng, true);
                     let intr = if rng.pct(25) { Some(rng.below(4) as usize) } else { None };
-                    Op::List(r, intr, rng.pct(15))
+                    let midline = rng.pct(15);
+                    // (no extra draw: the rarely reached "Ctrl-C after the fourth line" becomes the host load)
+                    if intr == Some(3) && !midline {
+                        Op::ListLoad(r)
+                    } else {
+                        Op::List(r, intr, midline)
+                    }
                 }
                 67..=84 => Op::Delete(range(rng, true)),
                 85..=89 => Op::Tab(operand(rng)),
@@ -613,7 +669,7 @@ impl Property for C15 {
         }
     }
     fn rule(&self) -> &'static str {
-        "one evaluation = one history of 2-19 operations (numbered lines in 5 spellings, bare numbers, LIST and DELETE in the forms n / n- / -n / a-b / bare / inverted / operand above 65529, TAB completion lookups, NEW, LOAD of a small file from the SimDisk (sorted or not, with repeated numbers, bare numbers, or a direct statement that makes the whole load fail), a LIST statement stored in the program and run with Ctrl-C after the j-th listed line + a direct LIST + CONT, snapshots taken, re-read and dropped, Ctrl-C after the j-th listed line) over line numbers drawn with a small-universe bias {0,1,2,9,10,11,100,65528,65529}; the ordered-map model is compared with get_listing() after every operation; distinct = distinct API/event log fingerprint; non-trivial = at least one accepted numbered line and more than 2 operations"
+        "one evaluation = one history of 2-19 operations (numbered lines in 5 spellings, bare numbers, LIST and DELETE in the forms n / n- / -n / a-b / bare / inverted / operand above 65529, TAB completion lookups, NEW, LOAD of a small file from the SimDisk (sorted or not, with repeated numbers, bare numbers, or a direct statement that makes the whole load fail), a LIST statement stored in the program and run with Ctrl-C after the j-th listed line + a direct LIST + CONT, snapshots taken, re-read and dropped, Ctrl-C after the j-th listed line, a host-initiated set_listing() right after the first listed line of a direct LIST) over line numbers drawn with a small-universe bias {0,1,2,9,10,11,100,65528,65529}; the ordered-map model is compared with get_listing() after every operation; distinct = distinct API/event log fingerprint; non-trivial = at least one accepted numbered line and more than 2 operations"
     }
     fn assumptions(&self) -> Vec<&'static str> {
         vec![
